@@ -208,6 +208,34 @@ def many_systems(s0: int, e0: int, r0: int, s1: int, e1: int, r1: int, t0: int) 
     return hx.end(m.timestep == t0 + steps)
 
 
+def ensure_registered(p_lo: int, p_old: int, p_new: int, t0: int) -> bool:
+    """
+    post: _
+    """
+    # the "make sure it is registered" idiom: add_system on a system that IS registered, relying on the documented
+    # KeyError - also after the system's priority attribute was changed in the meantime.  It still runs exactly once.
+    hx.begin()
+    m = LogModel()
+    m.systems.timestep = t0
+    other = S("other", m, priority=p_lo)
+    sub = S("sub", m, priority=p_old)
+    for s_ in (other, sub):
+        s_.start, s_.end = t0, t0 + 1000
+        m.systems.add_system(s_)
+    sub.priority = p_new
+    try:
+        m.systems.add_system(sub)
+        return hx.end(hx.fail("a registered system was accepted a second time"))
+    except KeyError:
+        hx.reach('refused')
+    m.execute()
+    runs = len([e for e in m.log if e[0] == "sub"])
+    if runs != 1 or len([e for e in m.log if e[0] == "other"]) != 1:
+        return hx.end(hx.fail("a system ran %d times in one timestep after a refused second registration" % runs, log=m.log,
+                              priorities=(p_lo, p_old, p_new)))
+    return hx.end(m.timestep == t0 + 1)
+
+
 class Spawner(System):
     """registers another system from inside its own execute() at a given timestep"""
     __slots__ = ['when', 'child']
@@ -447,5 +475,7 @@ def obligations(tier):
         X("nested_models", nested_models, parts=[{"steps": 2, "f": 1}, {"steps": 3, "f": 2}], labels=("window_runs",), timeout=900,
           encoded=enc, bounds={"steps": "2..3", "nesting system priority, window, timestep": "all ints"}),
         X("after_exception", after_exception, parts=[{"steps": 3}], labels=("raised",), timeout=600, encoded=enc),
+        X("ensure_registered", ensure_registered, labels=("refused",), timeout=120, encoded=enc + (SystemManager.add_system,),
+          bounds={"priorities": "all ints (old, new, bystander)"}),
         X("reject_n", reject_n, labels=("nonpositive", "nonint"), timeout=120, encoded=(Model.execute,)),
     ]
